@@ -50,6 +50,7 @@ func (e Ev) String() string {
 }
 
 var sqlOf = map[string]string{
+	"NB": "set names utf8mb4 collate utf8mb4_bin",
 	"N0": "set names utf8mb4",
 	"N1": "set names latin1",
 	"N2": "set names gbk collate gbk_bin",
@@ -76,6 +77,10 @@ type Config struct {
 	Cmds     []string `json:"cmds"`
 	Faults   int      `json:"faults"` // injected rejections allowed per history
 	Depth    int      `json:"depth"`
+	// Version the backend announces ("" = 5.7.25-fakemysql). Handshake[i] = collation id of
+	// client i's session (0 = forced with SessionExecutor.SetCollationID(0); absent = 45).
+	Version   string `json:"backend_version,omitempty"`
+	Handshake []int  `json:"session_collation_ids,omitempty"`
 }
 
 // Case is what a witness replays.
@@ -209,6 +214,21 @@ func diff(ref, got fakemysql.Snapshot) (comps []string, dirs []string) {
 	return
 }
 
+// resolveCollation is what a session collation id stands for on a backend of the given
+// version: id 0 and, on a pre-8.0 backend, ids above 247 (MySQL 8.0 collations) mean "the
+// default collation of the character set"; every other id means itself.
+func resolveCollation(id int, version string) (charset, collation string) {
+	if id == 0 {
+		return "utf8mb4", "utf8mb4_general_ci"
+	}
+	name := mysql.Collations[mysql.CollationID(id)]
+	cs := mysql.CollationNameToCharset[name]
+	if id > 247 && strings.HasPrefix(version, "5.") {
+		return cs, mysql.Collations[mysql.CharsetIds[cs]]
+	}
+	return cs, name
+}
+
 type world struct {
 	cfg   Config
 	r     *rig
@@ -220,6 +240,11 @@ type world struct {
 func newWorld(cfg Config, r *rig) *world {
 	w := &world{cfg: cfg, r: r}
 	r.fake.ResetLog()
+	version := cfg.Version
+	if version == "" {
+		version = "5.7.25-fakemysql"
+	}
+	r.fake.SetVersion(version) // announced to the connections of the new pool
 	ns := proxy.Mgr.GetNamespace(r.ns)
 	node := ns.GetSlice("slice-0").Master.Nodes[0]
 	// a fresh REAL pool for this replay (same arguments as Slice.parseDBInfo uses)
@@ -234,12 +259,29 @@ func newWorld(cfg Config, r *rig) *world {
 		old.Close()
 	}
 	for i := 0; i < cfg.Sessions; i++ {
-		se, err := server.VerifNewSession(proxy.Srv, r.user, e2erig.Password, e2erig.DB, mysql.CollationID(45))
+		id := 45
+		if i < len(cfg.Handshake) {
+			id = cfg.Handshake[i]
+		}
+		hs := id
+		if hs == 0 {
+			hs = 45 // the handshake refuses id 0; it is forced below
+		}
+		se, err := server.VerifNewSession(proxy.Srv, r.user, e2erig.Password, e2erig.DB, mysql.CollationID(hs))
 		if err != nil {
 			ev.Fatalf("session: %v", err)
 		}
+		if id == 0 {
+			se.SetCollationID(0)
+		}
 		w.ses = append(w.ses, se)
-		w.model = append(w.model, fakemysql.NewModel("utf8mb4", extraVars))
+		m := fakemysql.NewModel("utf8mb4", extraVars)
+		if cs, co := resolveCollation(id, version); cs != "utf8mb4" || co != "utf8mb4_general_ci" {
+			if err := m.Exec("set names " + cs + " collate " + co); err != nil {
+				ev.Fatalf("reference model: %v", err)
+			}
+		}
+		w.model = append(w.model, m)
 	}
 	return w
 }
@@ -638,6 +680,22 @@ func main() {
 			{Name: "3clients-cap1", Sessions: 3, Capacity: 1, Cmds: small, Faults: 1, Depth: 5},
 			{Name: "2clients-cap1-value-change", Sessions: 2, Capacity: 1, Cmds: []string{"L5", "L9", "LD", "Q"}, Faults: 0, Depth: 8},
 			{Name: "2clients-cap2-value-change", Sessions: 2, Capacity: 2, Cmds: []string{"L5", "L9", "Q"}, Faults: 0, Depth: 7},
+		}
+	}
+	// session collation ids x backend versions: two clients share one pooled connection, in
+	// both orders; ids: 45 (charset default), 46 (explicit non-default utf8mb4_bin), 255
+	// (utf8mb4_0900_ai_ci, a MySQL 8 driver's handshake; "default" on a pre-8.0 backend), 0
+	collIDs := []int{45, 46, 255, 0}
+	for _, ver := range []string{"5.7.25-fakemysql", "8.0.30-fakemysql", "mystery-build"} {
+		for _, a := range collIDs {
+			for _, b := range collIDs {
+				depth := 3
+				if !r.Quick() {
+					depth = 5
+				}
+				cfgs = append(cfgs, Config{Name: fmt.Sprintf("collation-ids-%s-%d-%d", strings.SplitN(ver, "-", 2)[0], a, b),
+					Sessions: 2, Capacity: 1, Cmds: []string{"NB", "N0", "Q"}, Faults: 0, Depth: depth, Version: ver, Handshake: []int{a, b}})
+			}
 		}
 	}
 	var totalStates, totalTrans int64
